@@ -2,6 +2,7 @@
    case   = VTup [VInt kind; VInt w; VInt s; VInt ucode; VInt k; VList batches; VList times]
             kind 0: window(w, s) with k capturing consumers      1: countByWindow(w, s) with k consumers
                  2: updateStateByKey(u) with k consumers         3: window and updateStateByKey on one source, k each
+                 4: countByWindow and (registered after it) updateStateByKey on one source, k consumers each
             ucode 0 sum, 1 last, 2 count, 3 append; batches: the queue contents; times: the clock value of every tick
    result = VTup [VList node_kinds; VList ticks]
             node_kinds: the classes of ssc._dstreams in registration order (0 DStream, 1 Transformed, 2 Windowed, 3 Stateful)
@@ -36,7 +37,7 @@ Definition str_of_string (s : string) : list N := map (fun a => N_of_ascii a) (l
 
 (* consumers whose captures are state RDDs (compared sorted by key) *)
 Definition keyed_consumer (kind k j : Z) : bool :=
-  match kind with 2 => true | 3 => k <=? j | _ => false end.
+  match kind with 2 => true | 3 => k <=? j | 4 => k <=? j | _ => false end.
 
 Definition enc_capture (keyed : bool) (c : option (list val)) : val :=
   match c with
@@ -58,6 +59,7 @@ Definition graph_of (kind w s : Z) (u : list val -> val -> val) (k : nat) (q : l
   | 1 => Some (prog_count q w s k)
   | 2 => Some (prog_state q u k)
   | 3 => Some (prog_both q w s u k)
+  | 4 => Some (prog_count_state q w s u k)
   | _ => None
   end.
 
